@@ -422,8 +422,12 @@ func init() {
 		impl: func(c *tcase) (string, string) {
 			x := mkNat(c.args[0], ai(c, 1))
 			i := uint(ai(c, 2))
+			u64 := new(big.Int).SetUint64(x.Uint64())
+			if ai(c, 1) > 64 { // Uint64 is documented as undefined above 64 announced bits: not compared
+				u64 = new(big.Int).And(x.Big(), new(big.Int).SetUint64(^uint64(0)))
+			}
 			return okz(zi(x.TrueLen()), zi(int(x.Bit(i))), zi(int(x.Byte(i))), zb(x.IsOdd() == ct.True && x.IsEven() == ct.False),
-				zb(x.IsZero() == ct.True && x.IsNonZero() == ct.False), zb(x.IsOne() == ct.True), new(big.Int).SetUint64(x.Uint64())), ""
+				zb(x.IsZero() == ct.True && x.IsNonZero() == ct.False), zb(x.IsOne() == ct.True), u64), ""
 		},
 		orac: func(c *tcase) string {
 			x := tr(ai(c, 1), c.args[0])
